@@ -6,7 +6,7 @@ Import ListNotations.
 Open Scope string_scope.
 Open Scope list_scope.
 
-Lemma defaults_build_ok : snd (defaults_new colors reset_mode defaults_schema DEFAULTS) = None.
+Lemma defaults_build_ok : snd (defaults_new cenv reset_mode defaults_schema DEFAULTS) = None.
 Proof. vm_compute. reflexivity. Qed.
 
 Lemma ctor_ok : ctor_forwards_style = true.
@@ -51,41 +51,26 @@ Proof. vm_compute. reflexivity. Qed.
 (* obj.style = <instance of the style class>: the object's style IS (a copy of) the instance afterwards,
    whatever it was before -- for every schema, previous state and instance *)
 Lemma style_instance_takes_over : forall (s : schema) (st inst : tree),
-  set_style colors style_setter_takes_instance s st (SInst inst) = (inst, None).
+  set_style cenv style_setter_takes_instance s st (SInst inst) = (inst, None).
 Proof. intros s st inst. reflexivity. Qed.
 
 (* a value that is neither a dict nor a style instance is rejected and changes nothing *)
 Lemma style_wrong_rejected : forall (t : bool) (s : schema) (st : tree),
-  set_style colors t s st SWrong = (st, Some EValue).
+  set_style cenv t s st SWrong = (st, Some EValue).
 Proof. intros t s st. reflexivity. Qed.
 
 (* record of the form before 9298ef3: the instance was ignored *)
 Lemma style_instance_ignored_record : forall (s : schema) (st inst : tree),
-  set_style colors false s st (SInst inst) = (st, None).
+  set_style cenv false s st (SInst inst) = (st, None).
 Proof. intros s st inst. reflexivity. Qed.
 
-(* ONE call, two leaves with the same head: a nested dict followed by an underscore key keeps both, an underscore
-   key followed by the plain (nested) key loses the first -- magic_to_dict overwrites what it collected *)
-Definition arg_under_then_nested : dict :=
-  [("path_line_width", Leaf (Some (VInt 5))); ("path", Node [("marker", Node [("size", Leaf (Some (VInt 9)))])])].
-Definition arg_nested_then_under : dict :=
-  [("path", Node [("marker", Node [("size", Leaf (Some (VInt 9)))])]); ("path_line_width", Leaf (Some (VInt 5)))].
-Definition arg_nested_then_reopened : dict :=
-  [("path", Node [("line", Node [("width", Leaf (Some (VInt 5)))])]);
-   ("path_line", Node [("color", Leaf (Some (VStr "red")))])].
-Definition updated (arg : dict) : tree :=
-  fst (update colors schema_BaseStyle (fresh_state schema_BaseStyle) arg true false).
+(* a sub-style instance handed to another object is copied; set_children_styles copies its argument
+   (forms of validate_property_class / Collection.set_children_styles in GenStyle) *)
+Lemma subobject_copy_ok : subobject_instance_copied = true.
+Proof. reflexivity. Qed.
 
-Lemma mixed_call_witness :
-  leaf_is schema_BaseStyle (updated arg_nested_then_under) ["path"; "marker"; "size"] (Some (VInt 9)) = true /\
-  leaf_is schema_BaseStyle (updated arg_nested_then_under) ["path"; "line"; "width"] (Some (VInt 5)) = true /\
-  leaf_is schema_BaseStyle (updated arg_under_then_nested) ["path"; "marker"; "size"] (Some (VInt 9)) = true /\
-  leaf_is schema_BaseStyle (updated arg_under_then_nested) ["path"; "line"; "width"] None = true /\
-  magic_to_dict arg_under_then_nested = [("path", Node [("marker", Node [("size", Leaf (Some (VInt 9)))])])] /\
-  (* shallow merge: a nested dict followed by a key that re-opens its sub-dictionary `line` *)
-  leaf_is schema_BaseStyle (updated arg_nested_then_reopened) ["path"; "line"; "color"] (Some (VStr "red")) = true /\
-  leaf_is schema_BaseStyle (updated arg_nested_then_reopened) ["path"; "line"; "width"] None = true.
-Proof. repeat split; vm_compute; reflexivity. Qed.
+Lemma set_children_copy_ok : set_children_copies_arg = true.
+Proof. reflexivity. Qed.
 
 (* record of the variant before 4641759 (alias listed by as_dict): arrow.size = 2 by attribute, then
    update(magnetization_arrow_size=0.5) left 2; with the generated schema it gives 0.5 *)
